@@ -25,6 +25,9 @@ def run(ck):
     if lib is None:
         return
     sk = skeleton.Skeleton(ck, lib)
+    # the meaning of the parser combinators the skeleton is built from, read from their own bodies
+    import primitives
+    primitives.check(ck, lib, sk, "C12-PR")
     rule_I(ck, lib, sk)
     c08.rule_I(ck, lib, sk, "C12-M")
     rule_D(ck, lib, sk)
